@@ -218,7 +218,7 @@ var (
 	c06V4    = []string{"1.1.1.1", "1.1.1.2", "2.2.2.2"}
 	c06V6    = []string{"::1", "2001:db8::1", "::ffff:1.2.3.4"}
 	c06Query = []string{"a.test", "b.a.test", "c.b.a.test", "x.test", "y.x.test", "test",
-		"d.c.b.a.test", "q.a.test", "z.test", "other.example", "*.a.test"}
+		"d.c.b.a.test", "q.a.test", "z.test", "other.example", "*.a.test", "ba.test"}
 )
 
 type c06Table struct {
